@@ -6,7 +6,7 @@ cd /verif
 grep -q "demo on changed build: exit 1" "$SRC/confirm.txt" 2>/dev/null || tools/confirm_seed.sh "$ID" "$SRC" > /dev/null 2>&1
 rm -rf $WT; git -C /repo worktree prune; tools/mkworktree.sh $WT >/dev/null 2>&1 || { echo "worktree failed" > "$SRC/pipeline.txt"; exit 3; }
 git -C $WT apply "$SRC/patch.diff" || { echo "patch does not apply" > "$SRC/pipeline.txt"; exit 3; }
-VERIF_REPO=$WT timeout 2400 bin/check "$PROP" --tier quick > "$SRC/check.log" 2>&1; rc=$?
+VERIF_EVIDENCE_DIR=/var/tmp/verif-seed-evidence VERIF_REPO=$WT timeout 2400 bin/check "$PROP" --tier quick > "$SRC/check.log" 2>&1; rc=$?
 { echo "check $PROP rc=$rc violations=$(grep -c '^VIOLATION' "$SRC/check.log")"; grep "key=" "$SRC/check.log" | cut -c1-240 | head -5; } > "$SRC/pipeline.txt"
 git -C /repo worktree remove --force $WT
 cat "$SRC/pipeline.txt"
